@@ -402,6 +402,7 @@ package jet
 //@   requires PInv(t)
 //@   modifies @Parse
 //@   ensures PInv(t) && result != nil && fresh(result) && result.NodeType == nodeCatch
+//@   callsite (*Template).newCatch 0 requires [the-catch-clause-keeps-the-error-variable-it-names-and-its-body] {C13} list == lastret("(*Template).itemList", 0) && ite(ncalls("(*Template).term") == 0, errVar == nil, errVar != nil && iface(errVar, "*IdentifierNode") == lastret("(*Template).term", 0))
 //@   callsite (*lexer).lineNumber * requires [line-read-before-the-body-is-parsed] {C12} ncalls("(*Template).itemList") == 0
 
 //@ func (*Template).parseBlock
